@@ -8,6 +8,11 @@ ALL = [f'C{i:02d}' for i in range(1, 21)]
 
 # id -> (level text, level note, technique, design ref)
 CHECKS = {
+    'C02': (
+        'Feature-deviation-bounded exhaustive exploration: every scope kind x pattern kind x every combination of up to 3-4 (quick) / 4-5 (thorough) features among disjunction widths, alias placements and reference placements (top level, quantifier body, quantifier domain) in all four event positions; each property is constructed by the parser, by the public constructors and by but() copies (at once, event by event, and stepwise through intermediate properties), and the accept / sanity-error outcome is compared with an independent scoping function; plus quantifier-hygiene and duplicate-channel sub-universes.',
+        'The scoping function in hplmc/checks/c02.py implements the statement literally (parallel binding inside a disjunction; partially bound aliases count as bound).',
+        'deviation-bounded exhaustive feature-combination enumeration over three construction routes against an independent scoping oracle',
+    ),
     'C17': (
         'Exhaustive exploration of a bounded configuration space: for each schema of the family every valid accessor chain and every chain invalid in exactly one way, at every nesting site (incl. index expressions, range bounds, set elements, function arguments, quantifier domains and bodies), root (message, alias) and property position, is checked against the real type tokens with the expectation computed by an independent resolver and the error required to name the offender; plus the navigation helpers on every nested message, the predefined integer tokens against the two\'s-complement formula and complete constructor grids (all 128 type sets for TypeToken).',
         'Resolver and field-tree walk in hplmc/schemas.py are the reference; schemas outside the 6-member family are not explored.',
